@@ -212,6 +212,9 @@ func calculateLineItemPrice(item *org.Item, cur currency.Code, rates []*currency
 	if icur == currency.CodeEmpty {
 		icur = cur
 	}
+	if icur.Def() == nil {
+		return fmt.Errorf("currency: '%v' not defined", icur)
+	}
 	price := item.Price.MatchPrecision(icur.Def().Zero())
 	if item.Currency == currency.CodeEmpty || item.Currency == cur {
 		item.Price = &price
@@ -226,6 +229,9 @@ func calculateLineItemPrice(item *org.Item, cur currency.Code, rates []*currency
 
 	// First check the alt prices
 	for _, ap := range item.AltPrices {
+		if ap == nil {
+			continue
+		}
 		if ap.Currency == cur {
 			item.Currency = ap.Currency
 			price = ap.Value.MatchPrecision(ap.Currency.Def().Zero())
